@@ -71,6 +71,11 @@ func allSchemes() map[string]kem.Scheme {
 	return m
 }
 
+var rareSeeds = map[string][][2]string{
+	"P256Kyber768Draft00": {{"811247060000090008c9bcf367e6096a3ba7ca8485ae67bb2bf894fe72f36e3cf1361d5f3af54fa5d182e6ad7f520e511f6c3e2b8c68059b6bbd41fbabd9831f",
+		"e9b0b3130000010008c9bcf367e6096a3ba7ca8485ae67bb2bf894fe72f36e3c"}},
+}
+
 type keyCtx struct {
 	pk        kem.PublicKey
 	sk        kem.PrivateKey
@@ -143,7 +148,10 @@ func main() {
 			defer func() { <-sem; wg.Done() }()
 			rng := vlib.Rng(*seed, "c01"+name)
 			var keys []*keyCtx
-			for k := 0; k < *nkeys+1; k++ {
+			// seeds found by search (about 2^32 SHAKE256 evaluations) whose FIRST candidate for the P-256 scalar is not below the group order,
+			// so that key derivation / encapsulation has to take its second candidate: SHAKE256(SHAKE256(seed)[:32])[:32] >= n
+			special := rareSeeds[name]
+			for k := 0; k < *nkeys+1+len(special); k++ {
 				kc := &keyCtx{}
 				sd := vlib.Bytes(rng, sch.SeedSize())
 				if k == 1 { // an edge seed
@@ -151,8 +159,16 @@ func main() {
 						sd[i] = 0xff
 					}
 				}
+				var esSpecial []byte
+				if k > *nkeys {
+					sd, esSpecial = vlib.UnHex(special[k-*nkeys-1][0]), vlib.UnHex(special[k-*nkeys-1][1])
+				}
 				bl := line{Ev: "basic", Scheme: name, DeriveDet: true}
-				kc.pk, kc.sk = sch.DeriveKeyPair(sd)
+				if oc := vlib.Safe(60*time.Second, func() { kc.pk, kc.sk = sch.DeriveKeyPair(sd) }); oc.Bad() {
+					bl.DeriveDet, bl.Note = false, "DeriveKeyPair panicked: "+oc.Panic
+					emit(bl)
+					continue
+				}
 				kc.pkb, _ = kc.pk.MarshalBinary()
 				kc.skb, _ = kc.sk.MarshalBinary()
 				for rep := 0; rep < 6; rep++ {
@@ -164,8 +180,15 @@ func main() {
 					}
 				}
 				es := vlib.Bytes(rng, sch.EncapsulationSeedSize())
+				if esSpecial != nil {
+					es = esSpecial
+				}
 				var err error
-				kc.ct, kc.ss, err = sch.EncapsulateDeterministically(kc.pk, es)
+				if oc := vlib.Safe(60*time.Second, func() { kc.ct, kc.ss, err = sch.EncapsulateDeterministically(kc.pk, es) }); oc.Bad() {
+					bl.EncapsDet, bl.Note = false, "EncapsulateDeterministically panicked: "+oc.Panic
+					emit(bl)
+					continue
+				}
 				if err != nil {
 					bl.Note = "encaps error: " + err.Error()
 					emit(bl)
